@@ -196,6 +196,28 @@ def monOp (op : String) (args : List String) : Option String :=
       pure ((d, v), ts)) nq ts
     some (verdict (monClaim until_ cursor lps paid (if hasQ then some q else none)))
   | "mon_claim_rejected" => some "viol C06-claim-blocked"
+  | "mon_twin_c14" => do
+    -- single-asset deposit (A) vs swap-half-then-deposit (B): same reserves, LP supply, LP to the
+    -- receiver / locked, fees to the collector; the odd unit stays in the pool manager in A
+    let (okA, ts) ← pBit args
+    let (okB1, ts) ← pBit ts
+    let (okB2, ts) ← pBit ts
+    let (odd, ts) ← pNat ts
+    let (xs, _) ← pRepeat pNat 14 ts
+    match xs with
+    | [r0a, r0b, r1a, r1b, sa, sb, ua, ub, la, lb, fa, fb, pa, pb] =>
+      some (if !okA then "ok"
+        else if !(okB1 && okB2) then "viol C14-two-step-rejected"
+        else if r0a == r0b && r1a == r1b && sa == sb && ua == ub && la == lb && fa == fb && pa == pb + odd then "ok"
+        else "viol C14-differs-from-two-step")
+    | _ => none
+  | "mon_twin_c17" => do
+    -- a deployment with one switch off (B) and one without (A): an operation that does not need the
+    -- switched feature has the same outcome and the same resulting state (statuses masked)
+    let (okA, ts) ← pBit args
+    let (okB, ts) ← pBit ts
+    let (same, _) ← pBit ts
+    some (if okA == okB && same then "ok" else "viol C17-interference")
   | "mon_auth" => do
     -- <variant> <accepted> <isOwner> <isPending> <pendingExpired> <withFunds>
     let (v, ts) ← pTok args
